@@ -1,0 +1,174 @@
+//! Verification hook (compiled only with `--cfg era_consensus_verif`).
+//! Thin public wrappers around crate-private building blocks so that an out-of-crate harness can drive them:
+//! the noise stream over an arbitrary transport, the multiplexer, the connection pool, raw frames and the
+//! loopback TCP pipe the handshakes are written against. No behaviour is added.
+#![allow(missing_docs, unreachable_pub, private_interfaces, clippy::missing_docs_in_private_items)]
+use std::{
+    collections::{BTreeMap, HashSet},
+    pin::Pin,
+    sync::Arc,
+    task::{Context, Poll},
+};
+
+use zksync_concurrency::{ctx, io, limiter};
+
+use crate::{frame, metrics::MeteredStream, mux, noise, pool};
+
+/// Encrypted stream over any transport.
+pub struct NoiseStream<S>(pub(crate) noise::Stream<S>);
+
+impl<S: io::AsyncRead + io::AsyncWrite + Unpin> NoiseStream<S> {
+    pub async fn client(ctx: &ctx::Ctx, s: S) -> ctx::Result<Self> {
+        Ok(Self(noise::Stream::client_handshake(ctx, s).await?))
+    }
+    pub async fn server(ctx: &ctx::Ctx, s: S) -> ctx::Result<Self> {
+        Ok(Self(noise::Stream::server_handshake(ctx, s).await?))
+    }
+    /// Session id (hash of the handshake transcript).
+    pub fn id(&self) -> Vec<u8> {
+        use zksync_consensus_crypto::ByteFmt as _;
+        self.0.id().encode()
+    }
+}
+
+impl<S: io::AsyncRead + io::AsyncWrite + Unpin> io::AsyncRead for NoiseStream<S> {
+    fn poll_read(mut self: Pin<&mut Self>, cx: &mut Context<'_>, buf: &mut io::ReadBuf<'_>) -> Poll<std::io::Result<()>> {
+        Pin::new(&mut self.0).poll_read(cx, buf)
+    }
+}
+
+impl<S: io::AsyncRead + io::AsyncWrite + Unpin> io::AsyncWrite for NoiseStream<S> {
+    fn poll_write(mut self: Pin<&mut Self>, cx: &mut Context<'_>, buf: &[u8]) -> Poll<std::io::Result<usize>> {
+        Pin::new(&mut self.0).poll_write(cx, buf)
+    }
+    fn poll_flush(mut self: Pin<&mut Self>, cx: &mut Context<'_>) -> Poll<std::io::Result<()>> {
+        Pin::new(&mut self.0).poll_flush(cx)
+    }
+    fn poll_shutdown(mut self: Pin<&mut Self>, cx: &mut Context<'_>) -> Poll<std::io::Result<()>> {
+        Pin::new(&mut self.0).poll_shutdown(cx)
+    }
+}
+
+/// The TCP-based noise stream the handshakes are written against.
+pub type TcpNoise = NoiseStream<MeteredStream>;
+
+/// Loopback TCP pair (outbound, inbound).
+pub async fn tcp_pipe(ctx: &ctx::Ctx) -> (MeteredStream, MeteredStream) {
+    let addr = zksync_concurrency::net::tcp::testonly::reserve_listener();
+    zksync_concurrency::scope::run!(ctx, |ctx, s| async {
+        let mut listener = addr.bind(false).map_err(|e| ctx::Error::Internal(e.into()))?;
+        let s1 = s.spawn(async { MeteredStream::connect(ctx, *addr).await });
+        let s2 = MeteredStream::accept(ctx, &mut listener).await?;
+        Ok((s1.join(ctx).await?, s2))
+    })
+    .await
+    .unwrap()
+}
+
+/// Raw `len ++ bytes` frame, as used by the handshakes and RPCs.
+pub async fn send_raw_frame<S: io::AsyncWrite + Unpin>(ctx: &ctx::Ctx, s: &mut S, payload: &[u8]) -> ctx::Result<()> {
+    use anyhow::Context as _;
+    io::write_all(ctx, s, &u32::to_le_bytes(payload.len() as u32)).await?.context("write")?;
+    io::write_all(ctx, s, payload).await?.context("write")?;
+    io::flush(ctx, s).await?.context("flush")?;
+    Ok(())
+}
+
+/// Receives a protobuf frame exactly as the handshakes do (`frame::recv_proto`), returning the raw bytes re-encoded.
+pub async fn recv_proto<T: zksync_protobuf::ProtoFmt, S: io::AsyncRead + Unpin>(ctx: &ctx::Ctx, s: &mut S, max: usize) -> ctx::Result<T> {
+    frame::recv_proto(ctx, s, max).await
+}
+
+pub async fn send_proto<T: zksync_protobuf::ProtoFmt, S: io::AsyncWrite + Unpin>(ctx: &ctx::Ctx, s: &mut S, msg: &T) -> ctx::Result<()> {
+    frame::send_proto(ctx, s, msg).await
+}
+
+// ---------------------------------------------------------------------------------------------
+// Pool
+
+pub struct Pool(pool::PoolWatch<String, u64>);
+
+impl Pool {
+    pub fn new(allowed: HashSet<String>, extra_limit: usize) -> Self {
+        Self(pool::PoolWatch::new(allowed, extra_limit))
+    }
+    pub async fn insert(&self, k: String, v: u64) -> Result<(), String> {
+        self.0.insert(k, v).await.map_err(|e| format!("{e:#}"))
+    }
+    pub async fn remove(&self, k: &String) {
+        self.0.remove(k).await
+    }
+    pub fn current(&self) -> Vec<(String, u64)> {
+        let mut v: Vec<_> = self.0.current().iter().map(|(k, v)| (k.clone(), *v)).collect();
+        v.sort();
+        v
+    }
+}
+
+// ---------------------------------------------------------------------------------------------
+// Mux
+
+pub struct MuxConfig {
+    pub read_frame_size: u64,
+    pub read_buffer_size: u64,
+    pub read_frame_count: u64,
+    pub write_frame_size: u64,
+}
+
+pub struct StreamQueue(pub(crate) Arc<mux::StreamQueue>);
+
+impl Clone for StreamQueue {
+    fn clone(&self) -> Self {
+        Self(self.0.clone())
+    }
+}
+
+pub struct TransientStream(mux::Stream);
+
+impl StreamQueue {
+    pub fn new(ctx: &ctx::Ctx, max_streams: u32, rate: limiter::Rate) -> Self {
+        Self(mux::StreamQueue::new(ctx, max_streams, rate))
+    }
+    /// Opens (connect side) or accepts (accept side) one transient stream.
+    pub async fn open(&self, ctx: &ctx::Ctx) -> ctx::OrCanceled<TransientStream> {
+        Ok(TransientStream(self.0.open(ctx).await?))
+    }
+}
+
+impl TransientStream {
+    /// Reads up to `n` bytes; fewer means end of stream.
+    pub async fn read(&mut self, ctx: &ctx::Ctx, n: usize) -> anyhow::Result<Vec<u8>> {
+        let mut buf = noise::bytes::Buffer::new(n);
+        self.0.read.read_exact(ctx, &mut buf).await?;
+        Ok(buf.as_slice().to_vec())
+    }
+    pub async fn write_all(&mut self, ctx: &ctx::Ctx, data: &[u8]) -> anyhow::Result<()> {
+        self.0.write.write_all(ctx, data).await
+    }
+    pub async fn flush(&mut self, ctx: &ctx::Ctx) -> anyhow::Result<()> {
+        self.0.write.flush(ctx).await
+    }
+}
+
+pub struct Mux {
+    pub cfg: MuxConfig,
+    pub accept: BTreeMap<u64, StreamQueue>,
+    pub connect: BTreeMap<u64, StreamQueue>,
+}
+
+impl Mux {
+    /// Runs the multiplexer over `transport`; returns a description of how it ended.
+    pub async fn run<S: io::AsyncRead + io::AsyncWrite + Send>(self, ctx: &ctx::Ctx, transport: S) -> Result<(), String> {
+        let m = mux::Mux {
+            cfg: Arc::new(mux::Config {
+                read_frame_size: self.cfg.read_frame_size,
+                read_buffer_size: self.cfg.read_buffer_size,
+                read_frame_count: self.cfg.read_frame_count,
+                write_frame_size: self.cfg.write_frame_size,
+            }),
+            accept: self.accept.into_iter().map(|(k, v)| (k, v.0)).collect(),
+            connect: self.connect.into_iter().map(|(k, v)| (k, v.0)).collect(),
+        };
+        m.run(ctx, transport).await.map_err(|e| format!("{e:?}"))
+    }
+}
